@@ -520,7 +520,7 @@ func c07Scripts(maxLen int) []string {
 }
 
 func runC07(r *ev.Run) {
-	r.Rule = "two real Channels whose Send callbacks feed the harness; phase 1 applies a script over the first k emitted messages (every string over {deliver, drop, duplicate, hold-and-swap} up to length k), crossed with the timing of the two sides' first Send and a restart of the peer after message j; phase 2 delivers promptly. Logical clock = handshake retransmissions since phase 2 began: a Send pending after K=10 of them, or pending while the network is quiet with no handshake timer armed, is a violation; then traffic must flow both ways. Rotation: steady two-way traffic (and one-way traffic from either side, the other having only brought the channel up) over 6 rekey periods (no Send may stall, no plaintext twice, handshakes started ~ once per rekey whatever KeepAlive is). Expiry: silence longer than RejectAfter, then a Send; idle expiry: silence of 0.9..3.5 KeepAliveTimeouts with the rekey timer far away, then a Send from the earlier initiator or responder, with and without late copies of the established session's handshake messages arriving first. non-trivial = script perturbed a message / both initiated / restart; distinct = (script, timing, restart point, keep-alive class)"
+	r.Rule = "two real Channels whose Send callbacks feed the harness; phase 1 applies a script over the first k emitted messages (every string over {deliver, drop, duplicate, hold-and-swap} up to length k; the quick tier adds six longer scripts that lose the tail of the handshake together with the first data messages), crossed with the timing of the two sides' first Send and a restart of the peer after message j; phase 2 delivers promptly. Logical clock = handshake retransmissions since phase 2 began: a Send pending after K=10 of them, or pending while the network is quiet with no handshake timer armed, is a violation; then traffic must flow both ways. Rotation: steady two-way traffic (and one-way traffic from either side, the other having only brought the channel up) over 6 rekey periods (no Send may stall, no plaintext twice, handshakes started ~ once per rekey whatever KeepAlive is). Expiry: silence longer than RejectAfter, then a Send; idle expiry: silence of 0.9..3.5 KeepAliveTimeouts with the rekey timer far away, then a Send from the earlier initiator or responder, with and without late copies of the established session's handshake messages arriving first. non-trivial = script perturbed a message / both initiated / restart; distinct = (script, timing, restart point, keep-alive class)"
 	r.Assumptions = []string{"K=10 retransmission rounds is the 'small bounded number' of the property; timers are real (5-20 ms backoff), verdicts are on retransmission counts and quiescence, the wall-clock watchdog only yields 'inconclusive'"}
 	scripts := c07Scripts(pick(r, 4, 5))
 	timings := []string{"A", "B", "both", "BafterA"}
@@ -556,6 +556,16 @@ func runC07(r *ev.Run) {
 	}
 	for i := off; i < len(jobs); i += step {
 		sel = append(sel, jobs[i])
+	}
+	if !isThorough(r) {
+		// the quick tier enumerates scripts up to length 4; a few longer ones are always added: the tail of the handshake and
+		// the first data messages lost together (what was sent just before the link healed is what decides who repeats what)
+		tg := rng.New(r.Seed, "C07", "tail-loss")
+		for _, s := range []string{"DDDXX", "DDDXXX", "DDXXX", "DDDDXX", "DDXXXX", "DDD2XX"} {
+			for _, tmg := range timings {
+				sel = append(sel, job{c07Case{Script: s, Timing: tmg, Restart: -1, BackoffMs: rng.Pick(tg, []int{5, 10, 20}), KAShort: tg.Bool()}, fmt.Sprintf("est-%s-%s", s, tmg)})
+			}
+		}
 	}
 	par := 2
 	sem := make(chan struct{}, par)
